@@ -363,6 +363,12 @@ class Env:
                 v = None
             if isinstance(v, Mask):
                 return "mask"          # `if mask.any():` guards masked updates that are no-ops for an empty mask
+            if isinstance(v, (tuple, list)) and v and all(_is_expr(x) for x in v):
+                xs = [_as_expr(x) for x in v]
+                if all(x.is_number for x in xs):
+                    return any(x != 0 for x in xs)          # a row of literal coefficients
+                if any(isinstance(x, sp.Symbol) for x in xs):
+                    return True                              # a generic (symbolic) entry is taken as non-zero
         v = self.ev(t)
         if isinstance(v, Mask):
             return v.cond
